@@ -30,7 +30,9 @@ RULE = (
     "only ENCODING), and before the derived class's first use a relative is used in the same process (warm: the parent "
     "reads the content / is instantiated empty / writes to a buffer, the bare framework base class is instantiated, a "
     "sibling derived with a third encoding reads, or nothing): every check is made on the derived class with ITS OWN "
-    "declared encoding, exactly as for a directly declared class. The named Boolean "
+    "declared encoding, exactly as for a directly declared class. Three text contents in ten of the single-byte "
+    "encodings have their non-ASCII characters only in groups that are also well-formed UTF-8 sequences (a utf-8 text "
+    "saved through the single-byte encoding). The named Boolean "
     "checks are evaluated by the driver. non-trivial = the content has a non-ASCII character or binary storage; "
     "distinct by full case."
 )
@@ -296,6 +298,19 @@ CHARS = {"utf-8": "éñßÇλ日本€✓\u0303\u0301\u0323\u0302\u212b\u2126", 
 WARMS = ["parent_read", "parent_read", "parent_new", "parent_write", "base_new", "sibling_read", "none"]
 
 
+def _moji(enc):
+    out = []
+    for ch in "éñüãçÁ°ß€ôÀí":
+        try:
+            out.append(ch.encode("utf-8").decode(enc))
+        except UnicodeDecodeError:
+            pass
+    return out
+
+
+MOJI = {e: _moji(e) for e in ("latin-1", "cp1252")}
+
+
 def random_case(rng):
     fam = rng.choice(["register", "block", "section"])
     binary = fam != "section" and rng.random() < 0.3
@@ -330,6 +345,11 @@ def random_case(rng):
             case.update({"blocks": c["blocks"], "x": c["x"]})
         return case
     pool = CHARS[enc] + "abcXYZ 0123#-"
+    if enc in MOJI and drng.random() < 0.3:
+        # a single-byte encoding whose non-ASCII characters come only in groups that are ALSO well-formed UTF-8
+        # sequences (what a utf-8 text looks like when it was saved through the single-byte encoding): the
+        # declared encoding decides how the bytes of a path are decoded, not what they happen to look like
+        pool = MOJI[enc] + list("abcXYZ 0123#-")
     if fam == "register":
         regs = [
             {"ident": codec.enc_str("AA"), "digits": 2, "fields": [codec.fd_lit(6, 3), codec.fd_int(4, 10)], "delimiter": None},
